@@ -263,7 +263,7 @@ int main(void)
 				else if (!strcmp(op, "c")) { int c = sgetc(f); ret = c == EOF ? -1 : 0; if (ret == 0) printf("%d;", c); }
 				else if (!strncmp(op, "bs", 2)) {
 					int size = atoi(op + 2);
-					/* never let the wild length through here: check what sgetbs would do with a peek */
+					/* not forked: the generator never puts the wild length 2^32-1 in a sequence */
 					ret = sgetbs(f, (char*)buf2, size);
 					if (ret == 0) { puthex(buf2, strlen((char*)buf2)); printf(";"); }
 				} else ret = -2;
